@@ -113,20 +113,24 @@ Proof.
 Qed.
 
 (* ... and the receive loop (Model/Recv.v, property C12) whose blocked read then fails
-   reports the loss: one error callback, one Disconnected event, and it closes quit. *)
+   closes quit and reports the loss: one error callback, one Disconnected event. *)
 Theorem C18_loss_reported : forall inb,
-  Recv.crecv inb 0 None [] = [Recv.AErrCall; Recv.AEvDisconnected inb; Recv.AQuit].
+  Recv.crecv inb 0 None [] = [Recv.AQuit; Recv.AErrCall; Recv.AEvDisconnected inb].
 Proof. reflexivity. Qed.
 
 (* "once the session has ended": however the receive loop ends (read error, element it
    rejects, answer it cannot write, the server's closing tag) it closes quit, exactly once,
-   as its last action; the theorems below say what the keep-alive loop does from there. *)
+   BEFORE it reports the loss (the Disconnected handler of a StreamManager returns only
+   when a new session is up: the keepalive of the lost connection must not tick during
+   the outage), and routes or writes nothing afterwards; the theorems below say what the
+   keep-alive loop does from there. *)
 Theorem C18_session_end_closes_quit : forall items inb nw wf,
   let rt := Recv.crecv inb nw wf items in
-  Recv.count_act Recv.is_quit rt = 1 /\ last rt Recv.AErrCall = Recv.AQuit.
+  Recv.count_act Recv.is_quit rt = 1 /\
+  Recv.quit_before_disc rt = true /\ Recv.quiet_after_quit rt = true.
 Proof.
   intros items inb nw wf. pose proof (RecvP.crecv_loss items inb nw wf) as H.
-  cbn zeta in *. destruct H as (H1 & H2 & _). split; assumption.
+  cbn zeta in *. destruct H as (H1 & (H2 & H3) & _). repeat split; assumption.
 Qed.
 
 (* Once the loop has taken the quit branch no action follows, whatever the schedule
